@@ -4,23 +4,34 @@ From PV Require Import Base.Prelude Model.Checksum Spec.OnesComplement Proofs.Ch
 Open Scope N_scope.
 
 (* The library's Checksum equals the RFC 1071 checksum in the byte order the
-   library stores it (low byte first), for every byte string up to 131074
-   bytes (the exact domain on which the uint32 accumulator cannot wrap; the
-   property's domain is frames of at most 1522 bytes). *)
+   library stores it (low byte first), for every byte string of up to 2^49
+   bytes: every byte string a Go program can hold (the address space of the
+   supported 64-bit platforms is 2^48 bytes; the uint64 accumulator cannot
+   wrap below 2^49 bytes). *)
 Theorem C15_checksum_rfc1071 : forall b,
-  bytes_ok b -> N.of_nat (length b) <= 131074 -> checksum b = swap16 (rfc1071 b).
+  bytes_ok b -> N.of_nat (length b) <= 562949953421312 -> checksum b = swap16 (rfc1071 b).
 Proof. exact checksum_rfc1071. Qed.
 Print Assumptions C15_checksum_rfc1071.
 
-(* Domain is sharp: documented, not a finding. *)
-Theorem C15_beyond_bound_refuted :
-  exists b, bytes_ok b /\ N.of_nat (length b) = 131076 /\ checksum b <> swap16 (rfc1071 b).
-Proof. exact checksum_beyond_bound_refuted. Qed.
-Print Assumptions C15_beyond_bound_refuted.
+(* The end-around-carry loop of Checksum has terminated within the fuel the
+   model gives it, for every value of the 64-bit accumulator: the model's
+   result is the loop's result, never a fuel artefact. *)
+Theorem C15_fold_loop_terminates : forall s,
+  s < 18446744073709551616 -> N.shiftr (cs_fold_loop 8 s) 16 = 0.
+Proof. exact cs_fold_loop_done. Qed.
+Print Assumptions C15_fold_loop_terminates.
+
+(* Where the former 32-bit accumulator wrapped (131076 bytes of 0xff gave 1,
+   RFC 1071 gives 0; repaired in /repo) the function is now right. *)
+Example C15_long_input_example :
+  let b := repeat 255 (N.to_nat 131076) in
+  bytes_ok b /\ N.of_nat (length b) = 131076 /\ checksum b = swap16 (rfc1071 b) /\ checksum b = 0.
+Proof. exact checksum_long_example. Qed.
+Print Assumptions C15_long_input_example.
 
 (* Independent of how the data is split across even and odd lengths. *)
 Theorem C15_split : forall a b,
-  bytes_ok a -> bytes_ok b -> N.of_nat (length a + length b) <= 131074 ->
+  bytes_ok a -> bytes_ok b -> N.of_nat (length a + length b) <= 562949953421312 ->
   checksum (a ++ b) =
     65535 - oc_add (oc_fold (le_sum a))
                    (oc_fold (le_sum (if Nat.even (length a) then b else 0 :: b))).
@@ -45,7 +56,7 @@ Print Assumptions C15_ip4_header_verifies.
 
 (* Any ICMPv4 message completed by icmp4SendPacket verifies. *)
 Theorem C15_icmp4_verifies : forall p,
-  bytes_ok p -> (4 <= length p)%nat -> N.of_nat (length p) <= 131074 ->
+  bytes_ok p -> (4 <= length p)%nat -> N.of_nat (length p) <= 562949953421312 ->
   nth 2 p 0 = 0 -> nth 3 p 0 = 0 ->
   verifies (icmp_set_checksum p (checksum p)).
 Proof. exact icmp4_verifies. Qed.
@@ -56,7 +67,7 @@ Print Assumptions C15_icmp4_verifies.
 Theorem C15_icmp6_verifies : forall src dst p,
   bytes_ok src -> bytes_ok dst -> bytes_ok p ->
   length src = 16%nat -> length dst = 16%nat -> (4 <= length p)%nat ->
-  N.of_nat (length p) <= 131000 ->
+  N.of_nat (length p) <= 4294967295 ->
   nth 2 p 0 = 0 -> nth 3 p 0 = 0 ->
   let psh := icmp6_pseudo src dst (N.of_nat (length p)) in
   verifies (psh ++ icmp_set_checksum p (checksum (psh ++ p))).
